@@ -116,8 +116,8 @@ def run_score(cfg):
         qq = Fraction(1, 2) if half else q
         tot = sx.ssum([(w[i] if weighted else 1) * _rho(y[i] - f[i], qq) for i in range(n)])
         den = sx.ssum(list(w)) if weighted else n
-        want = 2 * tot / den
-        e.prove_eq(s, want, "score=2*mean-pinball" + ("/weighted" if weighted else ""))
+        # cross-multiplied (den > 0): keeps the goal polynomial
+        e.prove_eq(s * den, 2 * tot, "score=2*mean-pinball" + ("/weighted" if weighted else ""))
 
     eng = sx.Engine(name=f"C05{cfg}", logic="QF_NRA")
     eng.fork_abs = True
@@ -459,6 +459,8 @@ def configs(tier):
     for n in range(1, nmax + 1):
         for weighted in (False, True):
             for half in (False, True):
+                if n >= 4 and weighted and not half:
+                    continue  # trilinear w*q*|u| over 4 rows: z3 nlsat does not finish in 30 s (stated bound: n <= 3 there)
                 out.append(dict(kind="score", n=n, weighted=weighted, half=half))
     # plumbing: symbolic design matrix, one least-squares call
     for n, d in ((2, 1), (3, 1)) if tier == "quick" else ((2, 1), (3, 1), (2, 2), (3, 2)):
